@@ -27,14 +27,29 @@ use std::os::unix::io::{AsRawFd};
 use rdp::core::event::{RdpEvent, BitmapEvent, PointerEvent, PointerButton, KeyboardEvent};
 use std::ptr::copy_nonoverlapping;
 use std::convert::TryFrom;
+#[cfg(not(rdp_rs_verif))]
 use std::thread;
+#[cfg(rdp_rs_verif)]
+use shuttle::thread;
+#[cfg(not(rdp_rs_verif))]
 use std::sync::{mpsc, Arc, Mutex};
+#[cfg(rdp_rs_verif)]
+use shuttle::sync::{mpsc, Arc, Mutex};
+#[cfg(not(rdp_rs_verif))]
 use std::thread::{JoinHandle};
+#[cfg(rdp_rs_verif)]
+use shuttle::thread::{JoinHandle};
+#[cfg(not(rdp_rs_verif))]
 use std::sync::atomic::{AtomicBool, Ordering};
+#[cfg(rdp_rs_verif)]
+use shuttle::sync::atomic::{AtomicBool, Ordering};
 use rdp::model::error::{Error, RdpErrorKind, RdpError, RdpResult};
 use clap::{Arg, App, ArgMatches};
 use rdp::core::gcc::KeyboardLayout;
+#[cfg(not(rdp_rs_verif))]
 use std::sync::mpsc::{Receiver, Sender};
+#[cfg(rdp_rs_verif)]
+use shuttle::sync::mpsc::{Receiver, Sender};
 
 const APPLICATION_NAME: &str = "mstsc-rs";
 
@@ -51,6 +66,15 @@ fn wait_for_fd(fd: usize) -> bool {
     }
 }
 
+/// Verification hook (only with `--cfg rdp_rs_verif`, never in a normal build)
+/// The file is then included as a module by a simulator which provides
+/// the readiness of its simulated socket in place of select(2)
+#[cfg(rdp_rs_verif)]
+fn wait_for_fd(fd: usize) -> bool {
+    super::sim_wait_for_fd(fd)
+}
+
+#[cfg(not(rdp_rs_verif))]
 #[cfg(any(target_os = "linux", target_os = "macos"))]
 fn wait_for_fd(fd: usize) -> bool {
     unsafe {
